@@ -72,7 +72,9 @@ def gen_programs(rng, n):
 
 
 FAILING = ["{ RdV = ; }", "{ RdV = unknown_fn(RsV); }", "{ P0 = foo(RsV); P1 = 1; }", "{ int32_t zz = RsV; RdV = bar(zz); }", "{ PdV = mem_load_s8(RsV) +; }",
-           "{ if (RsV) { P2 = nofn(1); } }", "{ RdV = NsN + qux(1); }", "{ mem_store_u8(RsV, RtV); JUMP(frob(RsV)); }"]
+           "{ if (RsV) { P2 = nofn(1); } }", "{ RdV = NsN + qux(1); }", "{ mem_store_u8(RsV, RtV); JUMP(frob(RsV)); }",
+           # the first leaf raises after its flag is set, before any operation exists / every flag is set before the failure
+           "{ if (OsN) { RdV = RsV; } }", "{ OsN; }", "{ if (PuN) { RdV = mem_load_u32(RsV); mem_store_u32(RsV, RtV); P1 = 1; JUMP(RtV); RdV = foo(RsV); } }"]
 
 
 def history_child(job):
@@ -175,7 +177,11 @@ def main(tier):
         for i, (kind, x) in enumerate(pool):
             comp = r2.choice(["A", "B"]) if two else "A"
             if r2.random() < 0.2:
-                hist.append({"i": -1, "kind": "fail", "comp": comp, "entry": "stmt", "text": r2.choice(FAILING)})
+                ftext = r2.choice(FAILING)
+                if ftext != FAILING[0] and ftext != FAILING[4] and r2.random() < 0.4:  # parseable: let it fail inside transform_insn
+                    hist.append({"i": -1, "kind": "fail", "comp": comp, "entry": "insn", "name": "FAILING_INSN", "parts": [ftext], "text": ftext})
+                else:
+                    hist.append({"i": -1, "kind": "fail", "comp": comp, "entry": "stmt", "text": ftext})
             if kind == "gen":
                 hist.append({"i": i, "kind": "gen", "comp": comp, "entry": "stmt", "text": x})
             else:
